@@ -320,6 +320,15 @@ def _json_dump(I, args, kwargs):
     return None
 
 
+@method_model(io.TextIOWrapper, "write")
+def _real_text_write(I, fp, args, kwargs):
+    """a real text file cannot hold symbolic content: a placeholder is written instead (what the checks observe of a real
+    destination is whether - and when - something was written, never symbolic bytes)"""
+    if len(args) == 1 and isinstance(args[0], (SymStr, DocText)):
+        return I.native(fp.write, "<text with symbolic content>")
+    return NotImplemented
+
+
 def _loads(I, s, kwargs):
     if isinstance(s, DocText):
         if s.kind != "json":
